@@ -165,16 +165,21 @@ func mapApply(s MState, in MIn) (MOut, MState) {
 	panic("mapApply: bad op " + in.Op.String())
 }
 
-var mapModel = porcupine.Model{
-	Init: func() interface{} { return MState{} },
-	Step: func(state, input, output interface{}) (bool, interface{}) {
-		exp, ns := mapApply(state.(MState), input.(MIn))
-		return exp == output.(MOut), ns
-	},
-	Equal: func(a, b interface{}) bool { return a.(MState) == b.(MState) },
-	DescribeOperation: func(in, out interface{}) string {
-		return fmt.Sprintf("%v -> %v", in, out)
-	},
+func makeMapModel(checkFn bool) porcupine.Model {
+	return porcupine.Model{
+		Init: func() interface{} { return MState{} },
+		Step: func(state, input, output interface{}) (bool, interface{}) {
+			exp, ns := mapApply(state.(MState), input.(MIn))
+			if !checkFn {
+				exp.FnCalls, exp.FnOld, exp.FnLd = 0, 0, false
+			}
+			return exp == output.(MOut), ns
+		},
+		Equal: func(a, b interface{}) bool { return a.(MState) == b.(MState) },
+		DescribeOperation: func(in, out interface{}) string {
+			return fmt.Sprintf("%v -> %v", in, out)
+		},
+	}
 }
 
 // ---- histories ----
